@@ -4,6 +4,7 @@ Bounded-exhaustive enumeration of (collection of multi-extension files) x (hdu_i
 selection) x (wcs_key selection) x (entry point), against direct astropy reads.
 """
 import argparse
+import contextlib
 import itertools
 import os
 
@@ -113,8 +114,67 @@ def wcs_sig(w):
     )
 
 
+def fname(i, l):
+    # names sort in the REVERSE of the input order: an entry point that sorts its paths misassigns the lists
+    return "%s%d_%s.fits" % ("zpd"[i], i, l)
+
+
+class _Recorder(object):
+    captured = None
+
+    def __init__(self, coll, *a, **k):
+        type(self).captured = coll
+        self.out_dir = "recorded"
+
+    def compute_global_pixelization(self, *a, **k):
+        pass
+
+    def tile(self, *a, **k):
+        pass
+
+
+@contextlib.contextmanager
+def _cli_recording(module, name):
+    import importlib
+
+    m = importlib.import_module(module)
+    orig = getattr(m, name)
+    _Recorder.captured = None
+    setattr(m, name, _Recorder)
+    try:
+        yield
+    finally:
+        setattr(m, name, orig)
+
+
 def build_collection(entry, paths, hdu_sel, key_sel):
     from toasty import collection
+
+    if entry in ("view", "multi-tan-cli"):
+        from toasty import cli
+
+        argv = []
+        if hdu_sel is not None:
+            argv += ["--hdu-index", str(hdu_sel) if isinstance(hdu_sel, int) else ",".join(str(i) for i in hdu_sel)]
+        key = key_sel if isinstance(key_sel, str) else ",".join(key_sel)
+        if key.strip(" ,") or entry == "view":
+            argv += ["--wcs-key=%s" % key]
+        if entry == "view":
+            with _cli_recording("toasty.fits_tiler", "FitsTiler"):
+                cli.entrypoint(["view", "--tile-only", "--parallelism", "1"] + argv + list(paths))
+        else:
+            import toasty.builder
+
+            with _cli_recording("toasty.multi_tan", "MultiTanProcessor"):
+                orig = toasty.builder.Builder.write_index_rel_wtml
+                toasty.builder.Builder.write_index_rel_wtml = lambda self, *a, **k: None
+                try:
+                    cli.entrypoint(["tile-multi-tan", "--parallelism", "1", "--outdir", os.path.join(os.path.dirname(paths[0]), "mt-out")] + argv + list(paths))
+                finally:
+                    toasty.builder.Builder.write_index_rel_wtml = orig
+        if _Recorder.captured is None:
+            raise RuntimeError("the command never built a collection")
+        return _Recorder.captured
 
     if entry == "load":
         return collection.load(list(paths), hdu_index=hdu_sel, wcs_key=key_sel)
@@ -156,9 +216,9 @@ def check_case(case, d, part):
     for i, l in enumerate(layouts):
         if "=" in l:
             l, ref = l.split("=")
-            paths.append(os.path.join(d, "f%d_%s.fits" % (int(ref), l)))
+            paths.append(os.path.join(d, fname(int(ref), l)))
         else:
-            paths.append(os.path.join(d, "f%d_%s.fits" % (i, l)))
+            paths.append(os.path.join(d, fname(i, l)))
     layouts = tuple(l.split("=")[0] for l in layouts)
     n = len(paths)
     # per-file expected selection
@@ -242,6 +302,10 @@ def gen_cases(tier):
                     if entry == "load_str" and n != 1:
                         continue
                     cases.append((layouts, h, k, entry))
+                if cli_expressible(h, k):
+                    cases.append((layouts, h, k, "view"))
+                if isinstance(h, int) and isinstance(k, str):
+                    cases.append((layouts, h, k, "multi-tan-cli"))
     return cases
 
 
@@ -254,7 +318,7 @@ def _work(chunk):
                 if "=" in l:
                     continue
                 if (i, l) not in made:
-                    make_file(os.path.join(d, "f%d_%s.fits" % (i, l)), l, i)
+                    make_file(os.path.join(d, fname(i, l)), l, i)
                     made.add((i, l))
             check_case(case, d, part)
             if part.evaluations in (3, 40, 200):
@@ -330,7 +394,7 @@ def replay(payload):
         else:
             for i, l in enumerate(cfg["layouts"]):
                 if "=" not in l:
-                    make_file(os.path.join(d, "f%d_%s.fits" % (i, l)), l, i)
+                    make_file(os.path.join(d, fname(i, l)), l, i)
             check_case((tuple(cfg["layouts"]), cfg["hdu_index"], cfg["wcs_key"], cfg["entry"]), d, part)
     for sig, (detail, _) in part.violations.items():
         print("REPLAY-FAIL", sig, detail)
